@@ -28,8 +28,11 @@ func e4() {
 	type setting struct {
 		perMin, burst int
 		cleanup       time.Duration
+		global        int // global_requests_per_minute; 0 = none. Above the per-client rate it never binds (same burst, faster refill)
 	}
-	settings := []setting{{60, 3, time.Second}, {6, 2, 5 * time.Second}, {12, 3, 5 * time.Second}, {6, 2, 0}}
+	settings := []setting{{60, 3, time.Second, 0}, {6, 2, 5 * time.Second, 0}, {12, 3, 5 * time.Second, 0}, {6, 2, 0, 0},
+		// the shipped shape: a global limit well above the per-client one (1000 vs 100 per minute by default)
+		{6, 2, 5 * time.Second, 600}, {60, 3, 0, 1200}}
 	steps := []time.Duration{time.Second, 7 * time.Second, 31 * time.Second, 10*time.Minute + time.Second}
 	depth := 6
 	if report.Thorough() {
@@ -46,7 +49,7 @@ func e4() {
 		var rec func()
 		run := func(h []string) {
 			vclock.SetFrozen()
-			rl := security.NewRateLimitValidator(config.ServerRateLimits{PerIPRequestsPerMinute: st.perMin, BurstSize: st.burst, CleanupInterval: st.cleanup}, nil, lg)
+			rl := security.NewRateLimitValidator(config.ServerRateLimits{PerIPRequestsPerMinute: st.perMin, BurstSize: st.burst, CleanupInterval: st.cleanup, GlobalRequestsPerMinute: st.global}, nil, lg)
 			defer rl.Stop()
 			rate := float64(st.perMin) / 60
 			tokens := float64(st.burst)
@@ -85,8 +88,8 @@ func e4() {
 						if !r.Allowed {
 							cl = "refused-with-tokens-available"
 						}
-						res.Violate(cl, map[string]any{"part": "E4"}, fmt.Sprintf("limiter %d/min burst %d cleanup_interval %s, history [%s]: request at step %d answered allowed=%v; the token bucket (%.3f tokens before the request) says %v",
-							st.perMin, st.burst, st.cleanup, strings.Join(h, " "), i+1, r.Allowed, tokens+map[bool]float64{true: 1, false: 0}[want], want),
+						res.Violate(cl, map[string]any{"part": "E4"}, fmt.Sprintf("limiter %d/min burst %d cleanup_interval %s global %d/min, history [%s]: request at step %d answered allowed=%v; the token bucket (%.3f tokens before the request) says %v",
+							st.perMin, st.burst, st.cleanup, st.global, strings.Join(h, " "), i+1, r.Allowed, tokens+map[bool]float64{true: 1, false: 0}[want], want),
 							map[string]any{"engine": "ops", "part": "E4", "setting": fmt.Sprint(st), "history": append([]string{}, h...)})
 						return
 					}
@@ -117,7 +120,7 @@ func e4() {
 			// refill than any idle timeout (1/min, burst 12), drained, left alone for k minutes, swept, drained again
 			for _, k := range []int{5, 10, 11, 12, 30} {
 				saved := st
-				st = setting{1, 12, time.Minute}
+				st = setting{1, 12, time.Minute, 0}
 				var h []string
 				for i := 0; i < 12; i++ {
 					h = append(h, "req")
